@@ -406,6 +406,8 @@ pub fn run(o: &Opts) -> i32 {
     }
     // approximate numerals in every base
     for b in 2..=36 { for v in ["pi", "1/3", "2^0.5", "1/7", "-e", "1e30/7"] { more.push(format!("{} -> base {}", v, b)); } more.push(format!("pi -> base {} digits 25", b)); }
+    for q in ["#262142-12-31 23:00:00 -12:00#", "#-262143-01-01 01:00:00 +12:00#", "#262142-12-31 23:59:59 -00:01#", "#-262143-01-01 00:00:00 +00:01#", "#262142-12-31 23:59:59 +14:00#", "#262143-01-01 00:00:00 +12:00#",
+              "#-262144-12-31 23:00:00 -12:00#", "#262142-12-31 23:00:00 -12:00# + 1 s", "#-262143-01-01 01:00:00 +12:00# -> \"Asia/Tokyo\""] { more.push(q.to_string()); }
     for d in ["now", "#2000-01-01 00:00 Asia/Tokyo#", "#262142-12-31 23:59#", "#-262143-01-01#", "#0001-01-01#", "#9999-12-31 23:59:59#"] {
         for k in ["1 hour", "1e3 years", "1e5 years", "262000 years", "263000 years", "3e5 years", "1e6 years", "1e8 years", "2.9e8 years", "2.93e8 years", "1e9 years", "1e-9 s", "9223372036854775 s", "9223372036854776 s"] {
             more.push(format!("{} + {}", d, k)); more.push(format!("{} - {}", d, k)); more.push(format!("{} + {}", k, d));
